@@ -482,6 +482,8 @@ def fact_events(bind, layout, kinds):
     """Static facts of the compiled tree as trace events for FactsTrace."""
     evs = []
     for view, vb in bind.views.items():
+        if view not in layout.get("hdrlen", {}):
+            continue          # a format the specification does not know (added to the tree later) carries no claim
         if "sizes" in kinds:
             evs.append({"e": "fact", "kind": "header_len", "view": view, "name": vb["len_macro"], "value": vb["header_len"]})
             evs.append({"e": "fact", "kind": "sizeof", "view": view, "name": "sizeof(Avtp_%s_t)" % view, "value": vb["sizeof"]})
